@@ -4,7 +4,7 @@
     Model/SignBytes.v (the bytes SimpleSignatureScheme signs). [H] is an arbitrary function. *)
 From Coq Require Import List NArith Permutation.
 From GV Require Import Base.Ints Model.TextFmt Model.HashScheme Model.SignBytes Monitors.C15m
-  Proofs.TextFmt Proofs.SignBytes Proofs.HashScheme.
+  Proofs.TextFmt Proofs.SignBytes Proofs.HashScheme Proofs.C15Monitor.
 Import ListNotations.
 Local Open Scope N_scope.
 
@@ -76,3 +76,14 @@ Theorem C15_model_satisfies_sign_monitor : forall a b, target_ok a -> target_ok 
   c15_sign_pair_mon a (sign_bytes a) b (sign_bytes b) = true.
 Proof. exact model_satisfies_sign_mon. Qed.
 Print Assumptions C15_model_satisfies_sign_monitor.
+
+(** The boolean used by the block monitor decides header equivalence. *)
+Theorem C15_hdr_equivb_decides : forall a b, hdr_equivb a b = true <-> hdr_equiv a b.
+Proof. exact hdr_equivb_equiv. Qed.
+Print Assumptions C15_hdr_equivb_decides.
+
+(** The model's outputs satisfy the block pair monitor, or exhibit a collision of H. *)
+Theorem C15_model_satisfies_block_monitor : forall (H : list N -> list N) a b, wf_header a -> wf_header b ->
+  c15_block_pair_mon a (block_hash H a) b (block_hash H b) = true \/ collision H (ser_header a) (ser_header b).
+Proof. exact model_satisfies_block_mon. Qed.
+Print Assumptions C15_model_satisfies_block_monitor.
